@@ -6,7 +6,8 @@
     `history`, `mechanism` are present, and their values).  Tests: `x is None`, `len(x) == 0` (also `< 1`, `not x`, `not len(x)`),
     `"k" in / not in x` or `x.keys()`, `a != b` / `a == b` between the accountant's own mechanism (`self.__class__.mechanism`,
     `type(self).mechanism`, `self.mechanism()`) and `x["mechanism"]`, combined with `or` / `and` / `not` (short-circuit).
-    Anything else (other raise types, other statements) is outside the subset.
+    A `for k in ("history", "mechanism"):` loop over literal keys is unrolled; a local bound to a mechanism value (`m = state_dict["mechanism"]`) is a monadic
+    `let` at that point (its `KeyError` included).  Anything else (other raise types, other statements) is outside the subset.
 (2) `IAccountant.state_dict`: that `destination["history"]` is a deep copy of `self.history` (`deepcopy(...)` / `copy.deepcopy(...)`)
     and `destination["mechanism"]` is the class's mechanism.
 (3) `PrivacyEngine.save_checkpoint` / `load_checkpoint` (opacus/privacy_engine.py): the table (key, component, conditional?) of what is
@@ -40,17 +41,23 @@ class L:
 
     def __init__(self, sd):
         self.sd = sd
+        self.subst = {}      # loop variable of an unrolled `for k in ("history", "mechanism"):` -> the constant
+        self.mechs = {}      # local bound to a mechanism value -> lean identifier
 
     def is_sd(self, e):
         return ast.unparse(e) in (self.sd, self.sd + ".keys()")
 
     def key(self, e):
+        if isinstance(e, ast.Name) and e.id in self.subst:
+            e = self.subst[e.id]
         if isinstance(e, ast.Constant) and e.value in ("history", "mechanism"):
             return "Key." + e.value
         raise Untranslatable("state-dict key " + ast.unparse(e)[:60])
 
     def mech(self, e):
         u = ast.unparse(e)
+        if isinstance(e, ast.Name) and e.id in self.mechs:
+            return f"(pure {self.mechs[e.id]})"
         if u in SELF_MECH:
             return "(pure selfMech)"
         if isinstance(e, ast.Subscript) and ast.unparse(e.value) == self.sd and self.key(e.slice) == "Key.mechanism":
@@ -102,27 +109,49 @@ def load_state_dict():
     if len(fn.args.args) != 2:
         raise Untranslatable("load_state_dict signature")
     t = L(fn.args.args[1].arg)
-    lines, bound = [], None
-    for s in _nodoc(fn.body):
-        if bound is not None:
-            raise Untranslatable("statement after the history is bound: " + ast.unparse(s)[:80])
-        if isinstance(s, ast.If) and not s.orelse and len(s.body) == 1 and isinstance(s.body[0], ast.Raise):
-            r = s.body[0].exc
-            if not (isinstance(r, ast.Call) and ast.unparse(r.func) == "ValueError"):
-                raise Untranslatable("guard raises " + ast.unparse(r)[:60])
-            lines.append(f"  if (← {t.test(s.test)}) then throw PyExc.valueError")
-            continue
-        if isinstance(s, ast.Assign) and len(s.targets) == 1 and ast.unparse(s.targets[0]) == "self.history":
-            v = s.value
-            copied = False
-            while isinstance(v, ast.Call) and ast.unparse(v.func) in ("deepcopy", "copy.deepcopy", "list", "copy.copy") and len(v.args) == 1:
-                v, copied = v.args[0], True
-            if not (isinstance(v, ast.Subscript) and ast.unparse(v.value) == t.sd and t.key(v.slice) == "Key.history"):
-                raise Untranslatable("history bound to " + ast.unparse(s.value)[:80])
-            bound = copied
-            lines.append("  getHist sd")
-            continue
-        raise Untranslatable("load_state_dict statement " + ast.unparse(s)[:100])
+    lines, state = [], {"bound": None}
+
+    def block(stmts):
+        for s in _nodoc(stmts):
+            if state["bound"] is not None:
+                raise Untranslatable("statement after the history is bound: " + ast.unparse(s)[:80])
+            if isinstance(s, ast.If) and not s.orelse and len(s.body) == 1 and isinstance(s.body[0], ast.Raise):
+                r = s.body[0].exc
+                if not (isinstance(r, ast.Call) and ast.unparse(r.func) == "ValueError"):
+                    raise Untranslatable("guard raises " + ast.unparse(r)[:60])
+                lines.append(f"  if (← {t.test(s.test)}) then throw PyExc.valueError")
+                continue
+            if isinstance(s, ast.For) and isinstance(s.target, ast.Name) and not s.orelse and isinstance(s.iter, (ast.Tuple, ast.List)) \
+                    and all(isinstance(c, ast.Constant) and isinstance(c.value, str) for c in s.iter.elts):
+                for c in s.iter.elts:          # a loop over a literal tuple of keys: unrolled
+                    t.subst[s.target.id] = c
+                    block(s.body)
+                t.subst.pop(s.target.id, None)
+                continue
+            if isinstance(s, ast.Assign) and len(s.targets) == 1 and isinstance(s.targets[0], ast.Name):
+                try:
+                    m = t.mech(s.value)        # a local holding a mechanism value: the lookup (and its KeyError) happens here
+                except Untranslatable:
+                    m = None
+                if m is not None:
+                    ident = f"{s.targets[0].id}_{len(t.mechs) + 1}"
+                    lines.append(f"  let {ident} ← {m}")
+                    t.mechs[s.targets[0].id] = ident
+                    continue
+            if isinstance(s, ast.Assign) and len(s.targets) == 1 and ast.unparse(s.targets[0]) == "self.history":
+                v = s.value
+                copied = False
+                while isinstance(v, ast.Call) and ast.unparse(v.func) in ("deepcopy", "copy.deepcopy", "list", "copy.copy") and len(v.args) == 1:
+                    v, copied = v.args[0], True
+                if not (isinstance(v, ast.Subscript) and ast.unparse(v.value) == t.sd and t.key(v.slice) == "Key.history"):
+                    raise Untranslatable("history bound to " + ast.unparse(s.value)[:80])
+                state["bound"] = copied
+                lines.append("  getHist sd")
+                continue
+            raise Untranslatable("load_state_dict statement " + ast.unparse(s)[:100])
+
+    block(fn.body)
+    bound = state["bound"]
     if bound is None:
         raise Untranslatable("load_state_dict never binds self.history")
     return "\n".join(lines), bound
